@@ -24,7 +24,7 @@ func (e *Engine) renderRun(run *FuncRun) {
 func (e *Engine) renderOblig(o *Oblig, axioms []*Term) {
 	if o.Kind != "canary" && (o.Goal == True || And(o.PC, Not(o.Goal)) == False) {
 		o.Trivial = true
-		o.PC, o.Goal, o.Hints, o.Inputs = nil, nil, nil, nil
+		o.PC, o.Goal, o.Hints, o.RefHints, o.Inputs = nil, nil, nil, nil, nil
 		return
 	}
 	o.Script, o.Quant = e.scriptFor(o, axioms)
@@ -51,7 +51,7 @@ func (e *Engine) renderOblig(o *Oblig, axioms []*Term) {
 			return decls, false
 		}, strLitAxiomsFor(o.PC, o.Goal), keep, Not(o.Goal), gm)
 	}
-	o.PC, o.Goal, o.Hints, o.Inputs = nil, nil, nil, nil
+	o.PC, o.Goal, o.Hints, o.RefHints, o.Inputs = nil, nil, nil, nil, nil
 }
 
 // resetTerms starts a fresh term universe.
